@@ -49,7 +49,8 @@ theorem getElem?_append_new {α} (l : List α) (a : α) : (l ++ [a])[l.length]? 
 
 /-- a query method on a cached set object at rest returns the list-semantics answer on the
     sequence of the current generator, and leaves the object at rest -/
-theorem runQuery_spec {s : State} (hi : Inv s) (hp : Parked s) (hsorted : Sorted s.sh.src) (q : Query) :
+theorem runQuery_spec {s : State} (hi : Inv s) (hp : Parked s) (hsorted : Sorted s.sh.src) (q : Query)
+    (hsmall : fits q s.sh.src) :
     (runQuery s q).2 = some (spec q s.sh.src) ∧ Inv (runQuery s q).1 ∧ Parked (runQuery s q).1 ∧
     (runQuery s q).1.sh.src = s.sh.src ∧
     (∀ t', t' < s.its.length → (runQuery s q).1.its[t']? = s.its[t']?) ∧
@@ -87,7 +88,7 @@ theorem runQuery_spec {s : State} (hi : Inv s) (hp : Parked s) (hsorted : Sorted
           | some it => it.res | none => none) = _
     rw [hit']
     simp only []
-    have := hl.2.2 (by rw [hsrc]; exact hsorted)
+    have := hl.2.2 (by rw [hsrc]; exact hsorted) (by rw [hq, hsrc]; exact hsmall)
     rw [this, hq, hsrc]
   · intro t' it2 h2
     by_cases e : t' = s.its.length
